@@ -88,7 +88,7 @@ class ClassTranslator:
         self.infer_sigs()
 
     # ---------------------------------------------------------------- attribute types
-    def shallow(self, node):
+    def shallow(self, node, depth=0):
         if isinstance(node, ast.Constant):
             if node.value is None:
                 return "none"
@@ -123,6 +123,15 @@ class ClassTranslator:
                 return "ostr"
             if isinstance(f, ast.Attribute) and f.attr == "copy":
                 return self.shallow(node.args[0]) if node.args else "unknown"
+            if isinstance(f, ast.Attribute) and is_self(f.value) and f.attr in self.methods and depth < 4:
+                kinds = {self.shallow(r.value, depth + 1) for r in ast.walk(self.methods[f.attr])
+                         if isinstance(r, ast.Return) and r.value is not None}
+                if len(kinds) == 1:
+                    return kinds.pop()
+                if kinds == {"num", "none"}:
+                    return "onum"
+            if isinstance(f, ast.Attribute) and f.attr == "quantize":
+                return "num"
             return "unknown"
         if isinstance(node, (ast.BinOp,)):
             return "num"
@@ -145,8 +154,8 @@ class ClassTranslator:
                         res.add(k)
                 kinds[a] = res
         for a, ks in kinds.items():
-            opt = "none" in ks or "ostr" in ks
-            core = ks - {"none"}
+            opt = "none" in ks or "ostr" in ks or "onum" in ks
+            core = {("num" if k == "onum" else k) for k in ks} - {"none"}
             if core <= {"num"} and core:
                 t = "ODec" if opt else "Dec"
             elif core <= {"str", "ostr"} and core:
@@ -278,7 +287,21 @@ class ClassTranslator:
             else:
                 raise Unsupported("dict literal value types %s" % (vts,))
             return pre, "([%s] : %s)" % (body, lean_type(("Dict", vt))), ("Dict", vt)
-        if isinstance(node, ast.List):
+        if isinstance(node, ast.ListComp):
+            if len(node.generators) != 1 or node.generators[0].ifs or not isinstance(node.generators[0].target, ast.Name):
+                raise Unsupported("comprehension shape")
+            pi, ti, yi = self.ex(node.generators[0].iter, env)
+            pre += pi
+            if not (isinstance(yi, tuple) and yi[0] == "List"):
+                raise Unsupported("comprehension over %s" % (yi,))
+            var = node.generators[0].target.id
+            env2 = dict(env)
+            env2[var] = yi[1]
+            pe, te, ye = self.ex(node.elt, env2)
+            if pe:
+                raise Unsupported("effectful comprehension element")
+            return pre, "(List.map (fun %s => %s) %s)" % (mangle(var), te, paren(ti)), ("List", ye)
+        if isinstance(node, (ast.List, ast.Tuple)):
             elts = [self.ex(e, env) for e in node.elts]
             if any(p for p, _, _ in elts):
                 raise Unsupported("effectful list element")
@@ -492,6 +515,11 @@ class ClassTranslator:
                 if pe:
                     raise Unsupported("effectful comprehension element")
                 return pre, "(List.%s %s (fun %s => decide %s))" % (f.id, paren(ti), mangle(var), self.as_prop(te, ye)), "B"
+            if f.id == "tuple" and len(node.args) == 1 and not node.keywords:
+                p, t, ty = self.ex(node.args[0], env)
+                if not (isinstance(ty, tuple) and ty[0] == "List"):
+                    raise Unsupported("tuple(%s)" % (ty,))
+                return p, t, ty
             if f.id in self.funcs:
                 sig = self.fsigs[f.id]
                 args = []
@@ -561,11 +589,22 @@ class ClassTranslator:
                     a = self.num(pre, t, ty)
                     return pre, "(Py.quantize1 .%s %s)" % (ROUNDINGS[rm.id], paren(a)), "Dec"
                 raise Unsupported("quantize form")
+            if f.attr == "join" and isinstance(f.value, ast.Constant) and isinstance(f.value.value, str) \
+                    and len(f.value.value) == 1 and len(node.args) == 1:
+                p, t, ty = self.ex(node.args[0], env)
+                pre += p
+                if ty != ("List", "S"):
+                    raise Unsupported("join of %s" % (ty,))
+                return pre, "(join %s %s)" % (repr(f.value.value).replace('"', "'") if f.value.value != "'" else "'\\''", paren(t)), "S"
             if f.attr == "format" and isinstance(f.value, ast.Constant) and isinstance(f.value.value, str) and not node.keywords:
                 args = []
                 for a in node.args:
                     p, t, ty = self.ex(a, env)
                     pre += p
+                    if ty == "OInt":
+                        t, ty = "(Py.strOInt %s)" % t, "S"
+                    elif ty == "Int":
+                        t, ty = "(Py.strOInt (some %s))" % t, "S"
                     if ty != "S":
                         raise Unsupported("format argument of type %s" % (ty,))
                     args.append(t)
@@ -611,6 +650,9 @@ class ClassTranslator:
                             raise Unsupported("assignment target")
                 elif isinstance(n, ast.AugAssign):
                     raise Unsupported("augmented assignment")
+                elif isinstance(n, ast.Call) and isinstance(n.func, ast.Attribute) and n.func.attr == "append" \
+                        and isinstance(n.func.value, ast.Name):
+                    add(n.func.value.id)
                 elif isinstance(n, ast.Call) and isinstance(n.func, ast.Attribute) and is_self(n.func.value) \
                         and n.func.attr in self.sigs and self.sigs[n.func.attr]["mutates"]:
                     add("self")
@@ -655,6 +697,10 @@ class ClassTranslator:
                 if len(st.targets) != 1:
                     raise Unsupported("multiple targets")
                 tg = st.targets[0]
+                if isinstance(tg, ast.Name) and isinstance(st.value, ast.List) and not st.value.elts:
+                    lines.append("let %s : List Str := []" % mangle(tg.id))
+                    env[tg.id] = ("List", "S")
+                    continue
                 p, t, ty = self.ex(st.value, env)
                 lines += p
                 if isinstance(tg, ast.Name):
@@ -679,6 +725,18 @@ class ClassTranslator:
                     lines.append("let self : Self := { self with metrics := Py.setitem %s %s self.metrics }" % (paren(tk), paren(t)))
                 else:
                     raise Unsupported("assignment target")
+                continue
+            if isinstance(st, ast.Expr) and isinstance(st.value, ast.Call) and isinstance(st.value.func, ast.Attribute) \
+                    and st.value.func.attr == "append" and isinstance(st.value.func.value, ast.Name) \
+                    and len(st.value.args) == 1:
+                x = st.value.func.value.id
+                if x not in env or not (isinstance(env[x], tuple) and env[x][0] == "List"):
+                    raise Unsupported("append to %s" % x)
+                p, t, ty = self.ex(st.value.args[0], env)
+                lines += p
+                if env[x][1] != ty:
+                    raise Unsupported("append of %s to list of %s" % (ty, env[x][1]))
+                lines.append("let %s : %s := %s ++ [%s]" % (mangle(x), lean_type(env[x]), mangle(x), t))
                 continue
             if isinstance(st, ast.Expr) and isinstance(st.value, ast.Call):
                 c = st.value
@@ -748,20 +806,36 @@ class ClassTranslator:
             if isinstance(st, ast.For):
                 if st.orelse or not isinstance(st.target, ast.Name) or has_return(st) or has_break(st):
                     raise Unsupported("for-loop shape")
-                vs = self.assigned(st.body)
-                if vs != ["self"]:
-                    raise Unsupported("for-loop assigns %s" % vs)
                 p, t, ty = self.ex(st.iter, env)
                 lines += p
+                if ty in ("Map", "OMap") or (isinstance(ty, tuple) and ty[0] == "Dict"):
+                    if ty == "OMap":
+                        d = self.fresh("d")
+                        lines.append("let %s ← Py.req %s" % (d, t))
+                        t = d
+                    t, ty = "(keys %s)" % t, ("List", "S")      # iterating a dict yields its keys in order
                 if not (isinstance(ty, tuple) and ty[0] == "List"):
                     raise Unsupported("for over %s" % (ty,))
                 env2 = dict(env)
                 env2[st.target.id] = ty[1]
-                body, _, term = self.blk(st.body, env2, dict(ctx, mut=True))
+                used_later = {n.id for r in rest for n in ast.walk(r) if isinstance(n, ast.Name)}
+                # loop state: self (when mutated) and the locals that live across iterations (defined before the loop)
+                vs = [v for v in self.assigned(st.body) if v == "self" or v in env]
+                for v in self.assigned(st.body):
+                    if v not in vs and v in used_later:
+                        raise Unsupported("loop variable %s is used after the loop" % v)
+                if not vs:
+                    raise Unsupported("for-loop without state")
+                body, e2, term = self.blk(st.body, env2, dict(ctx, mut=("self" in vs)))
+                for v in vs:
+                    if v != "self" and e2.get(v) != env[v]:
+                        raise Unsupported("loop changes the type of %s" % v)
+                pat = tuple_pat([mangle(v) for v in vs])
+                sty = " × ".join("Self" if v == "self" else paren(lean_type(env[v])) for v in vs)
                 if not term:
-                    body = body + ["pure self"]
-                lines.append("let self ← List.foldlM (fun (self : Self) (%s : %s) => (do\n%s)) self %s" % (
-                    mangle(st.target.id), lean_type(ty[1]), ind(body, 2), paren(t)))
+                    body = body + ["pure %s" % pat]
+                lines.append("let %s ← List.foldlM (fun (st : %s) (%s : %s) => (do\n  let %s := st\n%s)) %s %s" % (
+                    pat, sty, mangle(st.target.id), lean_type(ty[1]), pat, ind(body, 1), pat, paren(t)))
                 continue
             raise Unsupported("statement %s" % type(st).__name__)
         return lines, env, False
@@ -1044,28 +1118,33 @@ def gen_all(repo, out):
     jobs = [
         ("Code3", "cvss3.py", "CVSS3", "V3",
          {"METRICS_VALUES": ("Gen.V3.values", D2), "METRICS_VALUE_NAMES": ("Gen.V3.valueNames", N2),
+          "METRICS_ABBREVIATIONS": ("Gen.V3.abbrs", ("Dict", "S")),
           "TEMPORAL_METRICS": ("Gen.V3.temporal", LS), "ENVIRONMENTAL_METRICS": ("Gen.V3.environmental", LS),
           "METRICS_MANDATORY": ("Gen.V3.mandatory", LS)},
-         {"abbreviation": "S", "value": "Dec", "vector": "S"},
+         {"abbreviation": "S", "value": "Dec", "vector": "S", "output_prefix": "B"},
          ["round_up"],
          ["handle_scope", "add_missing_optional", "get_value", "get_value_description", "compute_isc_base", "compute_isc",
           "compute_esc", "compute_base_score", "compute_temporal_score", "compute_modified_isc_base",
-          "compute_modified_isc_30", "compute_modified_isc", "compute_modified_esc", "compute_environmental_score"],
+          "compute_modified_isc_30", "compute_modified_isc", "compute_modified_esc", "compute_environmental_score",
+          "clean_vector", "severities", "temporal_vector", "environmental_vector"],
          "check_mandatory", None),
         ("Code2", "cvss2.py", "CVSS2", "V2",
          {"METRICS_VALUES": ("Gen.V2.values", D2), "METRICS_VALUE_NAMES": ("Gen.V2.valueNames", N2),
+          "METRICS_ABBREVIATIONS": ("Gen.V2.abbrs", ("Dict", "S")),
           "TEMPORAL_METRICS": ("Gen.V2.temporal", LS), "ENVIRONMENTAL_METRICS": ("Gen.V2.environmental", LS),
           "METRICS_MANDATORY": ("Gen.V2.mandatory", LS)},
          {"abbreviation": "S", "value": "Dec", "vector": "S"},
          ["round_to_1_decimal"],
          ["get_value", "get_value_description", "impact_equation", "adjusted_impact_equation", "base_score_equation",
-          "compute_base_score", "temporal_score_equation", "compute_temporal_score", "compute_environmental_score"],
+          "compute_base_score", "temporal_score_equation", "compute_temporal_score", "compute_environmental_score",
+          "clean_vector", "severities", "temporal_vector", "environmental_vector"],
          "check_mandatory", None),
         ("Code4", "cvss4.py", "CVSS4", "V4",
-         {"METRICS_VALUE_NAMES": ("Gen.V4.valueNames", N2), "METRICS_MANDATORY": ("Gen.V4.mandatory", LS)},
-         {"metric": "S", "vector": "S", "abbreviation": "S"},
+         {"METRICS_VALUE_NAMES": ("Gen.V4.valueNames", N2), "METRICS_MANDATORY": ("Gen.V4.mandatory", LS),
+          "METRICS_ABBREVIATIONS": ("Gen.V4.abbrs", ("Dict", "S"))},
+         {"metric": "S", "vector": "S", "abbreviation": "S", "output_prefix": "B"},
          [],
-         ["m", "macroVector", "get_value_description"],
+         ["m", "macroVector", "get_value_description", "clean_vector"],
          None, [("levels", v4_levels)]),
     ]
     changed = []
